@@ -61,6 +61,13 @@ def relation(term: V, polarity: bool, x_key: str, y_key: str) -> Optional[Frozen
         (a, ca), (b, cb) = _split_offset(term.args[0]), _split_offset(term.args[1])
         if ca is None or cb is None:
             return None
+        # a literal bound c compared with X where Y is the literal y:  c == y + (c - y)
+        for lit_key in (x_key, y_key):
+            if lit_key.lstrip("-").isdigit():
+                if a != lit_key and a.lstrip("-").isdigit() and b in (x_key, y_key) and b != lit_key:
+                    a, ca = lit_key, ca + int(a) - int(lit_key)
+                if b != lit_key and b.lstrip("-").isdigit() and a in (x_key, y_key) and a != lit_key:
+                    b, cb = lit_key, cb + int(b) - int(lit_key)
         if (a, b) == (x_key, y_key):
             d = cb - ca                   # X + ca < Y + cb  <=>  X < Y + d
             s = {"LT"} if d == 0 else ({"LT_PART"} if d < 0 else {"LT", "EQ", "GT_PART"})
@@ -168,6 +175,11 @@ def surplus_reported(rows: List[Row], n: int) -> Tuple[bool, str]:
             start = rng.args[0] if len(rng.args) >= 2 else Const(0)
             stop = rng.args[1] if len(rng.args) >= 2 else rng.args[0]
             if isinstance(start, Const) and start.value == n and isinstance(stop, V) and stop.key() == "len(value)":
+                # an additional guard on the way must not cut into len(value) > n
+                for _, t, b in r.all_facts:
+                    rr = relation(t, b, "len(value)", str(n)) if isinstance(t, Term) else None
+                    if rr is not None and "GT" not in rr:
+                        return False, f"surplus positions are only reported under {('' if b else 'not ') + t.key()[:50]}, which excludes part of len(value) > {n}"
                 return True, ""
             if isinstance(start, V) and isinstance(stop, V) and stop.key() == "len(value)":
                 return False, f"surplus positions are reported from {start.key()[:40]} on, not from {n} (the number of declared elements)"
